@@ -394,6 +394,28 @@ def fixed_cases():
                 STATS["known"][SIG_SCANLIST_EXIT] += 1
             else:
                 return "--scan-list with a missing file prints an error but exits with status 0"
+        # warnings: every combination of -w and --fail-on-warnings over rules that compile with a warning, from
+        # source and from yarac output - a non-zero status always comes with a diagnostic, and whenever both
+        # forms succeed they print the same
+        wr = os.path.join(work, "warn.yar")
+        open(wr, "w").write('rule r_warn { strings: $a = "needle" condition: $a or 2 of ($a) }\n')
+        wc = os.path.join(work, "warn.yarc")
+        rc, out, err = run([YARAC, wr, wc])
+        if rc != 0:
+            return "yarac fails on a rule that only has a warning: " + err[-200:]
+        for combo in ([], ["-w"], ["--fail-on-warnings"], ["-w", "--fail-on-warnings"]):
+            FAIL_ON_WARNINGS[0] = "--fail-on-warnings" in combo
+            res = {}
+            for form, args in (("source", [wr]), ("compiled", ["-C", wc])):
+                rc, out, err = run([YARA] + combo + args + [f1])
+                if (rc != 0) != reported_error(err):
+                    FAIL_ON_WARNINGS[0] = False
+                    return "yara %s (%s rules with a compile warning): exit status %d but stderr %s a diagnostic: %r" % (
+                        " ".join(combo), form, rc, "has" if reported_error(err) else "has no", err[-200:])
+                res[form] = (rc, out)
+            FAIL_ON_WARNINGS[0] = False
+            if res["source"][0] == 0 and res["compiled"][0] == 0 and res["source"][1] != res["compiled"][1]:
+                return "yara %s prints something else from compiled rules than from source rules" % " ".join(combo)
         # single-file mode: a missing file is an error and a non-zero status
         rc, out, err = run([YARA, rp, os.path.join(work, "missing")])
         if rc == 0:
